@@ -15,13 +15,16 @@ import (
 type CallGraph struct {
 	Out map[string][]string
 	In  map[string][]string
+	// Async[caller][callee]: the callee is only started as / called inside a goroutine of the caller (go statement),
+	// never on the caller's own stack: locks it takes are not nested in the caller's.
+	Async map[string]map[string]bool
 }
 
 func (p *Prog) CallGraph() *CallGraph {
 	if p.cg != nil {
 		return p.cg
 	}
-	cg := &CallGraph{Out: map[string][]string{}, In: map[string][]string{}}
+	cg := &CallGraph{Out: map[string][]string{}, In: map[string][]string{}, Async: map[string]map[string]bool{}}
 	for key, fi := range p.Funcs {
 		if fi.Decl.Body == nil {
 			continue
@@ -68,6 +71,38 @@ func (p *Prog) CallGraph() *CallGraph {
 			return true
 		})
 		sort.Strings(cg.Out[key])
+		// callees that also occur outside go statements
+		syncSeen := map[string]bool{}
+		ast.Inspect(fi.Decl.Body, func(x ast.Node) bool {
+			switch c := x.(type) {
+			case *ast.GoStmt:
+				return false
+			case *ast.CallExpr:
+				for _, k := range p.calleeKeys(fi.Pkg, c) {
+					syncSeen[k] = true
+				}
+			case *ast.SelectorExpr:
+				if fn, ok := fi.Pkg.TypesInfo.Uses[c.Sel].(*types.Func); ok {
+					syncSeen[fkey(fn)] = true
+					for _, m := range p.implementers(fn.Origin()) {
+						syncSeen[fkey(m)] = true
+					}
+				}
+			case *ast.Ident:
+				if fn, ok := fi.Pkg.TypesInfo.Uses[c].(*types.Func); ok {
+					syncSeen[fkey(fn)] = true
+				}
+			}
+			return true
+		})
+		for _, k := range cg.Out[key] {
+			if !syncSeen[k] {
+				if cg.Async[key] == nil {
+					cg.Async[key] = map[string]bool{}
+				}
+				cg.Async[key][k] = true
+			}
+		}
 	}
 	for k, outs := range cg.Out {
 		for _, o := range outs {
